@@ -1,5 +1,6 @@
 """C13 — output is deterministic."""
 import os
+import re
 import subprocess
 
 import aglib
@@ -29,6 +30,10 @@ TARGETED = [
     [('where', ('call', 'contains', [col('obj'), lit('"p": 1, "q"')])), ('fields', 'only', ['id'])],
     [('parse', '*"q": *,*', ['x', 'y', 'z'], col('obj'), False, False), ('fields', 'only', ['id', 'x', 'y', 'z'])],
     [('let', ('call', 'concat', [col('obj', ('k', 'r'))]), 'txt'), ('agg', [(None, ('count', None))], [(None, col('txt'))])],
+    # records as they come, and sorted records: the column order of the text modes
+    [],
+    [('sort', [col('id')], 'desc')],
+    [('where', ('cmp', 'gte', col('id'), lit(0)))],
 ]
 
 
@@ -39,10 +44,13 @@ def explore(ctx):
     runs = 6 if quick else 30
     cases = []
     for i, tail in enumerate(TARGETED):
-        for rep in range(2 if quick else 10):
+        for rep in range(3 if quick else 12):
             rows = gen.gen_rows(rng, rng.randint(5, 30))
             for r in rows:
                 r['obj'] = {'p': rng.randint(0, 2), 'q': rng.choice(['x', 'y']), 'r': [1, {'z': rng.randint(0, 1), 'y': 2}]}
+                if rng.random() < 0.7:
+                    for nm in rng.sample(['Host', 'host', 'HOST', 'hOst', 'Ünit', 'ünit'], rng.randint(2, 4)):
+                        r[nm] = rng.randint(0, 3)          # names that differ only in case: their column order must not be left to a hash
                 r['arr2'] = [{'b': rng.randint(0, 1), 'a': 'v', 'c': None, 'd': [1]}, 7]
                 r['s'] = 'x=%d y=%d z=%d w=1' % (rng.randint(0, 2), rng.randint(0, 2), rng.randint(0, 1))
             cases.append(Case('t%d-%d' % (i, rep), STAR, [('json', None)] + tail, [gen.jtext(r) for r in rows], {'targeted'}))
@@ -71,7 +79,7 @@ def explore(ctx):
     modes = ['json', 'legacy', 'logfmt']
     jobs = []
     for c in cases:
-        mode = rng.choice(modes) if 'random' in c.tags else 'json'
+        mode = rng.choice(modes) if 'random' in c.tags else ('json' if c.cid.endswith('-0') else modes[int(c.cid.split('-')[-1]) % 3])
         for k in range(runs):
             extra = ()
             jobs.append((c.query, c.inp, mode, extra))
@@ -119,7 +127,7 @@ def explore(ctx):
     cov = {
         'evaluations': len(jobs) + chunk_checked + len(jcases), 'distinct_nontrivial': len(nontrivial),
         'rule': '%d queries (targeted: objects as keys / sort keys / distinct values, the text of objects and of arrays of objects through concat/toUpperCase/toLowerCase/substring/contains/parse from, aggregation followed by where/fields/field expressions/logfmt/second aggregation; random pipelines) '
-                'each run %d times in fresh processes (fresh hash seeds), output modes json/legacy/logfmt, byte comparison of stdout; plus chunked stdin pinned to one CPU; '
+                'each run %d times in fresh processes (fresh hash seeds), output modes json/legacy/logfmt (targeted queries in each), field names differing only in case, byte comparison of stdout; plus chunked stdin pinned to one CPU; '
                 'non-trivial = an aggregation with >= 3 result rows' % (len(cases), runs),
         'samples': samples_of(cases[:2] + cases[len(TARGETED) * 2:len(TARGETED) * 2 + 2]),
         'runs_per_query': runs, 'chunked_runs': chunk_checked,
@@ -140,4 +148,19 @@ def explore(ctx):
             firstbad = next((i for i, (x, y) in enumerate(zip(a, b)) if x != y), min(len(a), len(b)))
             failures.append({'kind': 'spec', 'what': 'the output depends on how fast the consumer reads: %d lines with a prompt consumer, %d with a stalled one (first difference at line %d)' % (len(a), len(b), firstbad),
                              'payload': {'query': q, 'rows': n}})
-    return {'coverage': cov, 'failures': failures}
+    # KF-32: parseDate completes a partial date from today's date (the only way to observe "another day" in one run is
+    # to see that the date printed IS today's)
+    known_lines = []
+    import datetime
+    o = aglib.run_impl_one('* | parse "*" as t | parseDate(t) as d | fields d', b'10:30\n', 'json')
+    cov['evaluations'] += 1
+    today = {datetime.datetime.now().strftime('%Y-%m-%d'), datetime.datetime.utcnow().strftime('%Y-%m-%d')}
+    m = re.search(rb'"d":"(\d{4}-\d{2}-\d{2})T10:30', o['out'])
+    if m and m.group(1).decode() in today:
+        if 'parse_date_partial_uses_today' in ctx.get('known_classes', ()):
+            known_lines.append('KF-32 parseDate completes text without a full date from the CURRENT date: the output changes from day to day without now() '
+                               '[witness: parseDate("10:30") -> %s]' % o['out'].decode('utf8', 'replace').strip())
+        else:
+            failures.append({'kind': 'spec', 'what': 'parseDate("10:30") prints today\'s date: the output depends on the day the query is run, without now()',
+                             'payload': {'query': '* | parse "*" as t | parseDate(t) as d | fields d', 'input_lines': ['10:30\n'], 'output': o['out'].decode('utf8', 'replace')}})
+    return {'coverage': cov, 'failures': failures, 'known_lines': known_lines}
